@@ -235,3 +235,31 @@ BOUNDED = [('bounded/documents', 'every marker word once and in source order (de
             'random documents: article / book, sectioning to 4 levels (starred and not), paragraphs, font commands and declarations, nested lists, description lists, '
             'tabulars, quote / center, footnotes, boxes, inline and display math, verbatim, labels and references, nesting <= 4', bounded_docs)]
 CLASSES = {}
+
+
+def bounded_math_substitution(budget, rng):
+    """typographic substitutions never touch a formula, also not inside its brace groups and macro arguments"""
+    n = 0
+    for src in ("$x_{i'}$ Wq1z", "\\[ y^{k''} \\] Wq1z", "$\\frac{a'}{b--c}$ Wq1z"):
+        n += 1
+        doc = '\\documentclass{article}\\begin{document}' + src + '\\end{document}'
+        d = parse(doc)
+        bad = []
+
+        def visit(node, inmath):
+            inmath = inmath or getattr(node, 'nodeName', '') in ('math', 'displaymath')
+            for c in getattr(node, 'childNodes', []):
+                if c.nodeType == 3:
+                    if inmath and any(ch in str(c) for ch in '\u2019\u201d\u2013\u2014'):
+                        bad.append(str(c))
+                else:
+                    visit(c, inmath)
+        visit(d, False)
+        if bad:
+            return False, n, 'typographic substitution inside a formula: %r in %s' % (bad[0], src), dict(text=doc, kind='math-substitution')
+    return True, n, ''
+
+
+BOUNDED.append(('bounded/math-substitution', 'no typographic substitution inside mathematics, brace groups and macro arguments of the formula included', '3 documents',
+                bounded_math_substitution))
+CLASSES['math-substitution'] = lambda w: isinstance(w, dict) and w.get('kind') == 'math-substitution'
